@@ -292,7 +292,8 @@ def gen(c, uid):
     L.append("class %s(Component):" % name)
     L.append("  def construct(s):")
     L.extend("    " + b for b in body)
-    if c.random() < 0.4:
+    has_push = c.random() < 0.4
+    if has_push:
       L.append("  @non_blocking(lambda s: True)")
       L.append("  def push(s, v):")
       L.append("    pass")
@@ -301,4 +302,25 @@ def gen(c, uid):
     comps.append(name)
     csize[name] = mysz
     stats["comp_classes"] += 1
+    if has_push and not top and c.random() < 0.6:
+      # a subclass that adds decorated methods of its own (and may override the inherited one): whatever is
+      # decided per CLASS about decorated methods must not leak from the base class to the subclass
+      sub = name + "S"
+      L.append("class %s(%s):" % (sub, name))
+      L.append("  @non_blocking(lambda s: True)")
+      L.append("  def pull(s):")
+      L.append("    return 0")
+      L.append("  @method_port")
+      L.append("  def peek(s):")
+      L.append("    return 1")
+      if c.random() < 0.4:
+        L.append("  @non_blocking(lambda s: False)")
+        L.append("  def push(s, v):")
+        L.append("    pass")
+      L.append("")
+      needs[sub] = needs[name]
+      csize[sub] = mysz + 8
+      comps.append(sub)
+      stats["method_ports"] += 2
+      stats["subclass_with_methods"] = stats.get("subclass_with_methods", 0) + 1
   return "\n".join(L) + "\n", stats
